@@ -222,3 +222,37 @@ B('c17-local-alias', 'C17', edits=[
 B('c17-get-idiom', 'C17', edits=[
   (SQP, "        if self.parse_cache is None or expr not in self.parse_cache:\n", "        cached = self.parse_cache.get(expr) if self.parse_cache is not None else None\n        if cached is None:\n"),
   (SQP, "            return self.parse_cache[expr]", "            return cached")])
+
+# =============================================================================== C10
+MKS = "        self.push_scope(scope)\n        try:\n            yield self\n        finally:\n            self.pop_scope()"
+M('c10-scope-not-popped-on-raise', 'C10', 'C10.R2', SCD, MKS, "        self.push_scope(scope)\n        yield self\n        self.pop_scope()")
+M('c10-lookup-forward', 'C10', 'C10.R1', SCD, "        for scope in reversed(self.scopes):", "        for scope in self.scopes:")
+M('c10-write-to-defining-scope', 'C10', 'C10.R1', SCD, "        self.scopes[-1][key] = value",
+  "        for scope in reversed(self.scopes):\n            if key in scope:\n                scope[key] = value\n                return\n        self.scopes[-1][key] = value")
+M('c10-functions-not-copied', 'C10', 'C10.R3', SQP, "ScopedDict({**FUNCTIONS})", "ScopedDict(FUNCTIONS)")
+M('c10-host-below-builtins', 'C10', 'C10.R3', SQP,
+  "        scoped_names = ScopedDict({**FUNCTIONS})\n        scoped_names.push_scope(names if names is not None else {})",
+  "        scoped_names = ScopedDict(names if names is not None else {})\n        scoped_names.push_scope({**FUNCTIONS})")
+M('c10-host-names-copied', 'C10', 'C10.R3', SQP, "push_scope(names if names is not None else {})", "push_scope(dict(names) if names is not None else {})")
+M('c10-names-or-empty', 'C10', 'C10.R3', SQP, "push_scope(names if names is not None else {})", "push_scope(names or {})")
+M('c10-lambda-params-in-top-scope', 'C10', 'C10.R5', AST,
+  "            with state.names.make_scope({\n                k.name: v for k, v in zip(self.args, args)\n            }):\n                return self.expr.eval(state)",
+  "            for k, v in zip(self.args, args):\n                state.names[k.name] = v\n            return self.expr.eval(state)")
+M('c10-functions-registered', 'C10', 'C10.R4', FUN, "FUNCTIONS: Dict[str, Callable] = {",
+  "def register(name, f):\n    FUNCTIONS[name] = f\n\n\nFUNCTIONS: Dict[str, Callable] = {")
+M('c10-missing-raises-nameerror', 'C10', 'C10.R1', SCD, "        raise KeyError(str(item))", "        raise NameError(str(item))")
+M('c10-pop-conditional', 'C10', 'C10.R2', SCD, "        finally:\n            self.pop_scope()", "        finally:\n            if scope:\n                self.pop_scope()")
+M('c10-pop-in-except-only', 'C10', 'C10.R2', SCD, "        finally:\n            self.pop_scope()", "        except Exception:\n            self.pop_scope()\n            raise")
+M('c10-make-scope-not-with', 'C10', None, AST,
+  "            with state.names.make_scope({\n                k.name: v for k, v in zip(self.args, args)\n            }):\n                return self.expr.eval(state)",
+  "            state.names.make_scope({\n                k.name: v for k, v in zip(self.args, args)\n            })\n            return self.expr.eval(state)")
+
+B('c10-dict-copy', 'C10', SQP, "ScopedDict({**FUNCTIONS})", "ScopedDict(dict(FUNCTIONS))")
+B('c10-copy-method', 'C10', SQP, "ScopedDict({**FUNCTIONS})", "ScopedDict(FUNCTIONS.copy())")
+B('c10-lambda-try-finally', 'C10', AST,
+  "            with state.names.make_scope({\n                k.name: v for k, v in zip(self.args, args)\n            }):\n                return self.expr.eval(state)",
+  "            state.names.push_scope({k.name: v for k, v in zip(self.args, args)})\n            try:\n                return self.expr.eval(state)\n            finally:\n                state.names.pop_scope()")
+B('c10-lookup-slice-reversed', 'C10', SCD, "        for scope in reversed(self.scopes):", "        for scope in self.scopes[::-1]:")
+B('c10-lookup-index-down', 'C10', SCD,
+  "        for scope in reversed(self.scopes):\n            if item in scope:\n                return scope[item]",
+  "        for i in range(len(self.scopes) - 1, -1, -1):\n            if item in self.scopes[i]:\n                return self.scopes[i][item]")
